@@ -207,6 +207,11 @@ Section Eval.
     | SCountStar => Ok (VInt (Z.of_nat (length grp)))
     end.
 
+  (* the buckets of GROUP BY as row positions: first-occurrence order, members in row order *)
+  Definition bucket_idx (keys : list expr) (rows : list row) : res (list (list nat)) :=
+    do ks <- mapM (fun r => do vs <- mapM (eval r) keys; Ok (row_key strict vs)) rows;
+    Ok (group_keys ks).
+
   Definition group_rows (keys : list expr) (rows : list row) : res (list (list row)) :=
     do ks <- mapM (fun r => do vs <- mapM (eval r) keys; Ok (row_key strict vs)) rows;
     Ok (map (fun idxs => flat_map (fun i => match nth_error rows i with Some r => [r] | None => [] end) idxs)
